@@ -71,6 +71,10 @@ func (i *In) parseArray(
 			return err
 		}
 
+		if nextT == nil {
+			break
+		}
+
 		if nextT.IsVariableIdentifier() {
 			var objectT *base.T
 
